@@ -116,6 +116,9 @@ func (pf *ProofMod) Verify(Session []byte, N *big.Int) bool {
 		return false
 	}
 	// TODO: add basic properties checker
+	if N == nil || N.Sign() != 1 || N.Bit(0) == 0 {
+		return false // big.Jacobi panics on an even modulus
+	}
 	if isQuadraticResidue(pf.W, N) {
 		return false
 	}
